@@ -947,7 +947,7 @@ func (h *harness) numerics(r *cv.Rand, thorough bool) {
 			}
 			seenV[z.String()] = true
 			// exotic spellings for a rotating subset (all of them in the thorough tier)
-			exotic := thorough || (n+ti)%4 == 0 || z.BitLen() == 54 || z.BitLen() == 64
+			exotic := thorough || (n+ti)%8 == 0 || ((z.BitLen() == 54 || z.BitLen() == 64) && t.bits >= 56 && (n+ti)%2 == 0)
 			h.numValue(t, z, r, exotic)
 			n++
 		}
